@@ -140,7 +140,7 @@ def check_factory(cfg):
         store = ex.extra["store"]
         info = ex.extra["info"]
         tuner = ex.tuner
-        delivered = [e for e in log if e[0] == "on_trial_result"]
+        delivered = [e for e in log if e[0] == "on_trial_result" and e[3] != "RAISED"]
         rows = store.results
         if ex.exc is not None:
             if ex.exc[0] != "LoopCap" and not (ex.exc[0] == "ValueError" and "no metrics got observed" in ex.exc[2]):
